@@ -8,6 +8,7 @@
 From Coq Require Import ZArith List String Ascii Bool.
 From HV Require Import Model.SexpDefs Gen.GenRefine Spec.SmtQuerySpec Model.SmtTextModel
   Model.SolveModel Model.SolveFsDefs Gen.GenSolveFs.
+From HV Require Spec.VerdictSpec.
 Import ListNotations.
 Open Scope Z_scope.
 
@@ -151,3 +152,16 @@ Definition solve_e2e_fs (solver : solver_t) (rf : string -> string) (core_hit : 
    timeout is reported like the answer "unknown" *)
 Definition answer_text (solver : solver_t) (q : string) : string :=
   match solver (Some q) with Some (o, _) => o | None => "unknown"%string end.
+
+(* SolverOutput.result of an outcome, in the result classes of Gen/GenSolveDispatch.v (the
+   `match first_line` of from_result and the guards of solve_end_to_end as translated from
+   solve.py by T-solvedispatch) *)
+Definition class_of (o : outcome) : VerdictSpec.rclass :=
+  match o with
+  | OUnsat => VerdictSpec.CUnsat
+  | OSat _ _ => VerdictSpec.CSat
+  | OUnknown => VerdictSpec.CUnknown
+  | OErr => VerdictSpec.CErr
+  end.
+Definition out_is_sat (o : outcome) : bool := match o with OSat _ _ => true | _ => false end.
+Definition out_valid (o : outcome) : bool := match o with OSat v _ => v | _ => false end.
